@@ -62,6 +62,33 @@ CHECKS.update({
         design="4/C18"),
 })
 
+CHECKS.update({
+    "C03": dict(
+        level="model_checking",
+        technique="exhaustive enumeration of operation histories (creator > formatting op > formatting op ...) from a catalogue, executed on the real API; every resulting XML part validated by libxml2 against the strict ISO schemas after MCE preprocessing; error-set monotonicity per part",
+        text="38 creators (every shape kind, all 29 writable chart types) x up to ~150 formatting operations per kind: all singles, all ordered pairs for the main kinds (thorough: pairs for every chart type, triples over text operations), slide-level operations and documented rejections on the default template, plus every applicable catalogue operation on shapes of all 68 corpus decks; each history leaves every p:/a:/c: part with no schema error it did not have initially.",
+        note="Trusted: libxml2 XSD validation with the schemas in /repo/spec, MCE preprocessing in mc/oracles/xsd.py, the operation catalogue mc/props/c03_ops.py. Pre-existing errors of PowerPoint-authored parts are tolerated by construction (error-set rule).",
+        design="4/C03"),
+    "C04": dict(
+        level="exploration",
+        technique="bounded-exhaustive enumeration of all strings over a 14-character alphabet (length <= 3 / <= 4) x 4 assignment levels x 6 prior body states, plus all ordered assignment pairs, executed on real text bodies against a reference model of the documented translations",
+        text="Every string over {a, space, LF, VT, TAB, CR, NUL, BEL, US, <, &, astral, _, x} up to the length bound, assigned at frame / cell / paragraph / run level onto six prior bodies (fields, leading breaks, properties), and all ordered pairs of assignments; getter at every level, a:p / a:br counts, a:pPr preservation, part-level re-parse with the library's own parser and two real save/re-open cycles. Sizes asserted against closed forms.",
+        note="Trusted: mc/oracles/text_ref.py (written from the statement), bare lxml reads of the body. Escape look-alike literals (_x000A_) are only judged for stability (statement silent).",
+        design="4/C04"),
+    "C12": dict(
+        level="model_checking",
+        technique="explicit-state BFS over histories of reflective read traversals (4 entry points x 2 accessor orders) and saves on every corpus deck, executed on the real object model; canonical saved package compared with the package saved straight after opening",
+        text="On all 68 corpus decks and 3 generated decks: every public read property and collection protocol of every reachable proxy object is called (tens of thousands of accessor calls per run), in forward and reverse order, from four entry points, interleaved with saves, to depth 1 on all decks and depth 2 on 8 feature-rich decks (thorough: 2 and 3). A differing state is attributed to the accessor that changed its element.",
+        note="Trusted: mc/oracles/opc_ref.py, lxml c14n; tolerance = empty attribute-less *Pr / a:ln / a:lstStyle / c:marker; accessors exempt only when their docstring documents creation (table EXEMPT in mc/props/c12.py). Known findings: 13 undocumented creating getters.",
+        design="4/C12"),
+    "C16": dict(
+        level="fault_enumeration",
+        technique="exhaustive single-fault (and pairwise on small decks) injection into the zip/directory form of every corpus deck, opened with the real Presentation(); reachable remainder computed by an independent OPC reader",
+        text="Every relationship retargeted or its target deleted, every .rels item deleted, every Default/Override case-flipped or retyped, extra members, all slide-name permutations, removed core properties, directory form, truncation at every member boundary and mid-member (path and stream), non-zip bytes, wrong main type, missing mandatory members: 17k single faults on 69 decks plus 29k fault pairs on the smallest decks (thorough: 173k). Opening must preserve exactly what is still reachable, or refuse with the exception class the statement names.",
+        note="Trusted: mc/oracles/opc_ref.py, the fault model mc/props/c16_faults.py (harness-side zip rewriting). Corrupt-member (bit-flip) faults are outside the statement's list and not injected.",
+        design="4/C16"),
+})
+
 NOT_BUILT = "check not completed yet (machinery under construction; see DESIGN.md section 8)"
 
 def main():
